@@ -317,6 +317,11 @@ func genCompileWLKinds(t *rapid.T, maxFiles int, kinds []int) CompileWL {
 				// an extension named relative to an ancestor package inside a message literal
 				s.useLim = true
 				msg = append(msg, "  option (o.cfg) = { v: 1 [lim.burst]: 3 };")
+			} else if k := rapid.IntRange(0, 5).Draw(t, "anyLit"); k < 2 {
+				// an expanded Any inside a message literal, under either of the two
+				// type-URL hosts the compiler knows
+				host := []string{"type.googleapis.com", "type.googleprod.com"}[k]
+				msg = append(msg, fmt.Sprintf("  option (o.cfg) = { v: 2 detail: { [%s/o.Cfg] { v: %d } } };", host, i))
 			}
 		}
 		if s.syntax == "proto2" {
@@ -399,13 +404,13 @@ func genCompileWLKinds(t *rapid.T, maxFiles int, kinds []int) CompileWL {
 	if withOpts {
 		extra["opts.proto"] = PFile{
 			Name:    "opts.proto",
-			Imports: []string{"google/protobuf/descriptor.proto"},
-			Text: "syntax = \"proto2\";\npackage o;\nimport \"google/protobuf/descriptor.proto\";\n" +
+			Imports: []string{"google/protobuf/descriptor.proto", "google/protobuf/any.proto"},
+			Text: "syntax = \"proto2\";\npackage o;\nimport \"google/protobuf/descriptor.proto\";\nimport \"google/protobuf/any.proto\";\n" +
 				"extend google.protobuf.MessageOptions {\n  optional string tag = 50001;\n  optional float ratio = 50003;\n  optional double dval = 50004;\n  optional sint32 sval = 50005;\n  optional uint32 uval = 50006;\n  optional fixed32 fval = 50007;\n  optional uint64 u64 = 50008;\n  optional int64 i64 = 50009;\n}\n" +
 				"extend google.protobuf.FileOptions {\n  optional int32 ftag = 50002;\n}\n" +
 				"extend google.protobuf.OneofOptions {\n  optional string otag = 50010;\n}\n" +
 				"extend google.protobuf.ExtensionRangeOptions {\n  optional string xlabel = 50030;\n}\n" +
-				"message Cfg {\n  optional int32 v = 1;\n  extensions 100 to 199;\n}\n" +
+				"message Cfg {\n  optional int32 v = 1;\n  optional google.protobuf.Any detail = 3;\n  extensions 100 to 199;\n}\n" +
 				"extend google.protobuf.MessageOptions {\n  optional Cfg cfg = 50020;\n}\n",
 		}
 	}
